@@ -380,22 +380,38 @@ def rule_roots(prog, rep):
     from ..flow import must_pass
     rep.floor("C32.ROOTS", 2)
     f = prog.fn(r"^apollo_smith::schema::<impl apollo_smith::DocumentBuilder<'_>>::schema_definition$")
-    picks = []
+    def base(x):
+        """the candidate list an operand is a view of: strips borrows, Deref to slice and len()"""
+        x = x.strip()
+        while True:
+            y = x
+            x = x.lstrip("&*").strip()
+            m = re.fullmatch(r"\((.*)\)", x) or re.fullmatch(r"<Vec<T, A> as Deref>::deref\((.*)\)", x) or \
+                re.fullmatch(r"(?:Vec|slice)::(?:len|as_slice|iter)\((.*)\)", x) or re.fullmatch(r"Vec::<T, A>::(?:len|as_slice)\((.*)\)", x)
+            if m:
+                x = m.group(1)
+            if x == y:
+                return x
+
+    cands = {}
     for c in f.live_calls():
-        if re.search(r"Unstructured(::<'a>)?::(choose|choose_index|choose_iter|int_in_range)$", c.name):
-            a = " ".join(f.sym(x) for x in c.args[1:])
-            if "list_existing_object_types(" in a:
-                picks.append(c)
-    if len(picks) < 2:
-        raise Undecided("schema_definition: fewer than two root picks from list_existing_object_types() recognised (%d)" % len(picks))
+        if re.search(r"Unstructured(::<'a>)?::(choose|choose_index|choose_iter|int_in_range)$", c.name) and len(c.args) > 1:
+            cands.setdefault(base(f.sym(c.args[1])), []).append(c)
+    lists = {k: v for k, v in cands.items() if len(v) >= 2 and not re.fullmatch(r"(const:.*|arg\d+.*)", k)}
+    if len(lists) != 1:
+        raise Undecided("schema_definition: the candidate list of the root operation types was not recognised (%s)" % sorted(cands)[:4])
+    src, picks = next(iter(lists.items()))
+
+    def on_list(x):
+        return base(x) == src
+
     dom = sorted(picks, key=lambda c: sum(1 for d in picks if f.dominates(d.block, c.block)))
-    src = " ".join(f.sym(x) for x in dom[0].args[1:])
     dedup = re.search(r"dedup|IndexSet|BTreeSet|HashSet|unique", src) is not None
     good = []
     for c in f.live_calls():
-        if c.name.endswith("Vec::<T, A>::retain") and "list_existing_object_types(" in f.sym(c.args[0]):
-            m = re.match(r"closure:(.*)$", f.sym(c.args[1]))
-            cl = [h for h in prog.fns.values() if h.parent == f.uid and h.kind == "closure" and m and (h.d.get("item") or h.name).endswith(m.group(1).rstrip(":").split("::")[-1])]
+        if c.name.endswith("Vec::<T, A>::retain") and on_list(f.sym(c.args[0])):
+            m = re.search(r"closure:.*?(\{closure#\d+\})", f.sym(c.args[1]))
+            cl = [h for h in prog.fns.values() if h.parent == f.uid and h.kind == "closure" and m and h.name.endswith(m.group(1))]
             ne = False
             for h in cl:
                 for k in h.live_calls():
@@ -408,7 +424,7 @@ def rule_roots(prog, rep):
     for a, b in zip(dom, dom[1:]):
         starts = [a.target] if a.target is not None else []
         ok = bool(good) and must_pass(f, starts, [b.block], set(good))[0]
-        byidx = [c for c in f.live_calls() if re.search(r"Vec::<T, A>::(remove|swap_remove)$", c.name) and "list_existing_object_types(" in f.sym(c.args[0])]
+        byidx = [c for c in f.live_calls() if re.search(r"Vec::<T, A>::(remove|swap_remove)$", c.name) and on_list(f.sym(c.args[0]))]
         if not ok and dedup and byidx:
             ok = must_pass(f, starts, [b.block], {c.block for c in byidx})[0]
         rep.obligation(ok)
